@@ -62,6 +62,17 @@ func (l *decLog) checkReturned(f cu.Frame, err error) {
 			}
 		}
 	}
+	maxN := famH264.maxNALUs
+	if l.codec == "h265" {
+		maxN = famH265.maxNALUs
+	}
+	key := l.codec + "-empty-frame"
+	clause := "every decoder returns either a frame or an error"
+	if bad == "" && len(f) > maxN {
+		bad = fmt.Sprintf("Decode returned %d NALUs, more than MaxNALUsPerAccessUnit = %d", len(f), maxN)
+		key = l.codec + "-oversize-frame"
+		clause = "no returned frame exceeds the documented maximum"
+	}
 	if bad == "" {
 		return
 	}
@@ -69,8 +80,8 @@ func (l *decLog) checkReturned(f cu.Frame, err error) {
 	for _, p := range l.pkts {
 		in.Pkts = append(in.Pkts, pktStr(p))
 	}
-	ctx.Violate(corr.Violation{Property: "C08", Clause: "every decoder returns either a frame or an error",
-		Key: l.codec + "-empty-frame", Where: "pkg/format/rtp" + l.codec + "/decoder.go", Input: in, Detail: bad})
+	ctx.Violate(corr.Violation{Property: "C08", Clause: clause,
+		Key: key, Where: "pkg/format/rtp" + l.codec + "/decoder.go", Input: in, Detail: bad})
 }
 
 type h264Enc struct{ e *rtph264.Encoder }
